@@ -35,6 +35,7 @@ type cfgCase struct {
 	flagScan, flagPaths, flagChecks *string // nil = not given
 	envScan, envPaths, envChecks    *string // nil = unset
 	tag                             string
+	bareScan                        bool // flagScan "true" written as the bare switch `-scan-tests`, the other flags after it
 }
 
 func sp(s string) *string { return &s }
@@ -105,7 +106,11 @@ func setenv(name string, v *string) {
 func (c cfgCase) args(prefix string) []string {
 	var a []string
 	if c.flagScan != nil {
-		a = append(a, "-"+prefix+"scan-tests="+*c.flagScan)
+		if c.bareScan && *c.flagScan == "true" {
+			a = append(a, "-"+prefix+"scan-tests")
+		} else {
+			a = append(a, "-"+prefix+"scan-tests="+*c.flagScan)
+		}
 	}
 	if c.flagPaths != nil {
 		a = append(a, "-"+prefix+"exclude-paths="+*c.flagPaths)
@@ -143,8 +148,12 @@ func (c cfgCase) describe() string {
 		}
 		return strconv.Quote(*p)
 	}
-	return fmt.Sprintf("flags{scan=%s paths=%s checks=%s} env{SCAN_TESTS=%s EXCLUDE_PATHS=%s EXCLUDE_CHECKS=%s}",
-		d(c.flagScan), d(c.flagPaths), d(c.flagChecks), d(c.envScan), d(c.envPaths), d(c.envChecks))
+	bare := ""
+	if c.bareScan && c.flagScan != nil && *c.flagScan == "true" {
+		bare = " (written as the bare switch -scan-tests, first on the command line)"
+	}
+	return fmt.Sprintf("flags{scan=%s%s paths=%s checks=%s} env{SCAN_TESTS=%s EXCLUDE_PATHS=%s EXCLUDE_CHECKS=%s}",
+		d(c.flagScan), bare, d(c.flagPaths), d(c.flagChecks), d(c.envScan), d(c.envPaths), d(c.envChecks))
 }
 
 // cfgSpec: the property read directly (flag, else env even if empty, else default; lists split/trim/
@@ -242,7 +251,7 @@ func corrCfg(o corrOpts) *res.Summary {
 					} else if fi == 2 {
 						fsv = sp(rng.Pick(r, boolVals))
 					}
-					cases = append(cases, cfgCase{flagScan: fsv, envScan: opt3(envBoolVals, ei),
+					cases = append(cases, cfgCase{flagScan: fsv, bareScan: fi == 1 && rep%2 == 0, envScan: opt3(envBoolVals, ei),
 						flagPaths: opt3(listVals, r.Intn(3)), envPaths: opt3(listVals, r.Intn(3)),
 						flagChecks: opt3(listVals, r.Intn(3)), envChecks: opt3(listVals, r.Intn(3)), tag: fmt.Sprintf("grid-scan-f%d-e%d", fi, ei)})
 					cases = append(cases, cfgCase{flagPaths: opt3(listVals, fi), envPaths: opt3(listVals, ei),
@@ -464,6 +473,7 @@ func cfgProbe(o corrOpts, sum *res.Summary, r *rng.R, bin string, boolVals, envB
 			c = cfgCase{tag: "probe"}
 			if i/3 == 1 {
 				c.flagScan = sp("true")
+				c.bareScan = i%3 != 1
 			} else if i/3 == 2 {
 				c.flagScan = sp("false")
 			}
